@@ -185,8 +185,41 @@ def r02c(ctx):
         g = lc.generators[0]
         ok = u(g.iter) == "zip(range(3), angles, self.expected_solutions)" and [u(c) for c in g.ifs] == ["exists and angle is not None"] \
             and u(lc.elt) == "self.solution_class(self, angle, direct=i == 0)"
-    ctx.check(ok, "R02c", f"{q}.solutions", "paths are built in the order (direct, indirect 1, indirect 2) for the expected solutions; only the first is flagged direct", "",
-              key_detail="solutions order")
+    what = "paths are built in the order (direct, indirect 1, indirect 2) for the expected solutions; only the first is flagged direct"
+    if ok:
+        ctx.ok("R02c", f"{q}.solutions", what)
+    else:
+        from .c01 import _direct_flag_pairing
+        verdict, found = _direct_flag_pairing(so)
+        paired = any(u(n) == "self.expected_solutions" and isinstance(parent(n), ast.Call) and u(parent(n).func) == "zip" for n in ast.walk(so))
+        ctor = [c for c in ast.walk(so) if is_call(c, name="solution_class", recv="self")]
+        conds = []
+        if len(ctor) == 1:
+            n = parent(ctor[0])
+            while n is not None and n is not so:
+                if isinstance(n, ast.If):
+                    conds.append(u(n.test))
+                if isinstance(n, (ast.ListComp, ast.GeneratorExp)):
+                    conds.extend(u(c) for g in n.generators for c in g.ifs)
+                n = parent(n)
+        filtered = any("is not None" in c for c in conds) and len(conds) >= 1 and (len(conds) >= 2 or " and " in " ".join(conds))
+        # positive evidence: the launch angle itself tested for truth (0.0, straight up, is a legitimate angle)
+        avar = ctor[0].args[1].id if len(ctor) == 1 and len(ctor[0].args) > 1 and isinstance(ctor[0].args[1], ast.Name) else None
+        truthy = False
+        for c_ in conds:
+            t_ = parse_expr(c_)
+            for n_ in ast.walk(t_):
+                ops = n_.values if isinstance(n_, ast.BoolOp) else ([n_.operand] if isinstance(n_, ast.UnaryOp) and isinstance(n_.op, ast.Not) else ([t_] if n_ is t_ else []))
+                if any(isinstance(o, ast.Name) and o.id == avar for o in ops):
+                    truthy = True
+        if truthy:
+            verdict, found = False, f"`{avar}` is tested for truth in {conds}: a launch angle of 0.0 is dropped"
+        if verdict is True and paired and filtered:
+            ctx.ok("R02c", f"{q}.solutions", what, found)
+        elif verdict is False:
+            ctx.bad("R02c", f"{q}.solutions", what, found, key_detail="solutions order")
+        else:
+            ctx.unknown("R02c", f"{q}.solutions", what, f"{found}; conditions {conds}")
     sub = repo.cls("pyrex.ray_tracing.SpecializedRayTracer")
     over = [m for m in ("expected_solutions", "exists", "solutions") if m in sub.methods]
     ctx.check(not over, "R02c", "pyrex.ray_tracing.SpecializedRayTracer", "the specialized tracer inherits the existence logic", str(over), key_detail="override")
